@@ -25,6 +25,8 @@ pub mod tcp;
 pub mod versioning;
 #[cfg(iggy_verif)]
 pub mod verif;
+#[cfg(iggy_verif)]
+pub use crate::command::ServerCommand as VerifServerCommand;
 
 const VERSION: &str = env!("CARGO_PKG_VERSION");
 const IGGY_ROOT_USERNAME_ENV: &str = "IGGY_ROOT_USERNAME";
